@@ -818,6 +818,7 @@ void Parser::parse_context_hunk(std::vector<PatchLine>& old_lines, LineNumber& o
         if (!parse_range(new_start_line, new_end_line))
             throw std::runtime_error("Could not parse expected range!");
 
+        auto pos = m_file.tellg();
         get_line(line, &newline);
         if (m_file.eof())
             return;
@@ -825,6 +826,16 @@ void Parser::parse_context_hunk(std::vector<PatchLine>& old_lines, LineNumber& o
         // Check if we have a 'to-file' that has been omitted, and we have reached the next patch.
         if (starts_with(line, "**********"))
             return;
+
+        // Every line of the 'to-file' begins with "  ", "+ " or "! ". Anything else means that it has
+        // been omitted too, and that this line belongs to whatever is following this hunk.
+        const bool is_to_file_line = line.size() >= 2 && (line[0] == ' ' || line[0] == '+' || line[0] == '!') && line[1] == ' ';
+        if (!is_to_file_line) {
+            --m_line_number;
+            m_file.seekg(pos);
+            return;
+        }
+
         append_line(new_lines, line, newline);
     }
 
